@@ -7,10 +7,10 @@ from . import model
 from .tyast import Ty, py_class
 
 SMALL_INTS_ONLY = False   # round-trip workloads avoid |n| >= 2**63 (numpy promotes such int arrays to float64)
-INTS = (0, 1, -1, 2, 3, 5, 7, 10, 42, 2 ** 63, -2 ** 64, 255)
+INTS = (0, 1, -1, 2, 3, 5, 7, 10, 42, 2 ** 63, -2 ** 64, 255, 2 ** 31, 2 ** 53 + 1, -(2 ** 53) - 1, 2 ** 63 - 1, -2 ** 63, 10 ** 30, 256, 65536)
 FLOATS = (0.0, -0.0, 1.5, -2.25, 1e308, float('inf'), float('-inf'), float('nan'), 0.1, 5.0, 7.0)
 STRS = ('', 'a', 'abc', 'héllo', '日本語', 'a\x00b', '12', '1.5', '2023-09-05', 'x' * 40, 'yes', 'null', ' pad ',
-        'line\nbreak', '𝒳', 'v1', 'k')
+        'line\nbreak', '𝒳', 'v1', 'k', 'ß', 'İ', 'e\u0301', '\u200b', 'A' * 300, '\t', 'ǅ', '٣')
 BYTESV = (b'', b'ab', bytearray(b'xy'), b'\x00\xff', b'k')
 DATES = ('2023-09-05', '1999-12-31', '2024-02-29')
 TIMES = ('11:11:11', '00:00:00', '23:59:59.123456', '11:11:11+02:00', '05:06')
@@ -118,7 +118,11 @@ def member(ty: Ty, rng, small=False, hashable=False, depth=0):
         return member(Ty(ty.x['base']), rng, small, hashable)
     if k in ('list', 'seq', 'deque', 'set'):
         n = ch((0, 1, 2, 2, 3)) if depth < 3 else ch((0, 1))
+        if depth < 2 and not small and not ty.a[0].a and rng.random() < 0.04:
+            n = ch((8, 17, 33, 100, 257))      # lengths past any small threshold (leaf element types only, to bound the cost)
         items = [sub(ty.a[0]) for _ in range(n)]
+        if k != 'set' and n >= 2 and rng.random() < 0.08:
+            items[-1] = items[0]               # the very same object twice
         if k == 'set' and n > 1 and rng.random() < 0.2:
             items.append(items[0])
         return _seq(items, hashable)
